@@ -191,6 +191,47 @@ theorem C18_ocra_verdict (O : HashOracle) (r : OcraReq) (cfg : SuiteConfig) (i :
       rw [h] at this; cases this
 
 
+open OtpVerif.Std in
+/-- C18 (provisioning URL): for a request with all four required fields, `/otp/url` answers with the text of exactly the
+URL the library builds for the request's issuer, account, secret, digits, hash and period (`type` selects TOTP / HOTP;
+anything else is a 400) -/
+theorem C18_url (r : UrlReq) (hb : blank r.type = false ∧ blank r.secret = false ∧ blank r.issuer = false ∧ blank r.account = false) :
+    otpURL .post (.url r) =
+      (let p : URLParam := { issuer := r.issuer, account := r.account, secret := r.secret,
+                             digits := digitsFromStr r.digits, algo := algoFromStr r.algorithm, period := r.period }
+       if r.type = sTotpB then (match generateTOTPURL p with | .ok u => ⟨200, .url (Std.Url.urlString u)⟩ | _ => err 500)
+       else if r.type = sHotpB then (match generateHOTPURL p with | .ok u => ⟨200, .url (Std.Url.urlString u)⟩ | _ => err 500)
+       else err 400) := by
+  unfold otpURL
+  rw [if_neg (show ¬ (Method.post ≠ Method.post) by decide)]
+  simp only [hb.1, hb.2.1, hb.2.2.1, hb.2.2.2, Bool.false_eq_true, or_self, if_false, recover]
+  by_cases h1 : r.type = sTotpB
+  · simp only [h1, if_true]; cases generateTOTPURL _ <;> rfl
+  · simp only [h1, if_false]
+    by_cases h2 : r.type = sHotpB
+    · simp only [h2, if_true]; cases generateHOTPURL _ <;> rfl
+    · simp only [h2, if_false]
+
+open OtpVerif.Std in
+/-- C18 (suite endpoints): `/ocra/suites` lists exactly the advertised names and `/ocra/suite` answers for a known name
+with exactly the registered configuration -/
+theorem C18_suites : listSuites .get = ⟨200, .suites (Gen.registry.map (·.1))⟩ := rfl
+
+open OtpVerif.Std in
+theorem C18_suite_config (raw : Bytes) (hb : blank raw = false) (hk : isKnownSuite raw = true) :
+    suiteConfigH .post (.suiteCfg raw) = ⟨200, .suiteConfig raw (suiteConfigFromRaws raw)⟩ := by
+  unfold suiteConfigH
+  rw [if_neg (show ¬ (Method.post ≠ Method.post) by decide)]
+  simp only [hb, hk, Bool.false_eq_true, if_false, Bool.not_true]
+
+open OtpVerif.Std in
+/-- C18 (wrong method / wrong path): every endpoint refuses other methods with 405 and unknown paths get 404 -/
+theorem C18_method (O : HashOracle) (b : Body) (now : Int) :
+    totpGenerate O .other b now = err 405 ∧ totpValidate O .other b now = err 405 ∧ hotpGenerate O .other b = err 405 ∧
+    hotpValidate O .other b = err 405 ∧ ocraGenerate O .other b = err 405 ∧ ocraValidate O .other b = err 405 ∧
+    otpURL .other b = err 405 ∧ suiteConfigH .other b = err 405 ∧ listSuites .other = err 405 := by
+  refine ⟨?_, ?_, ?_, ?_, ?_, ?_, ?_, ?_, ?_⟩ <;> rfl
+
 end OtpVerif.Props.C18
 
 #print axioms OtpVerif.Props.C18.fromStr_tables
@@ -203,3 +244,7 @@ end OtpVerif.Props.C18
 #print axioms OtpVerif.Props.C18.C18_ocra_generate
 #print axioms OtpVerif.Props.C18.C18_ocra_verdict
 #print axioms OtpVerif.Props.C18.C18_fromStr_documented
+#print axioms OtpVerif.Props.C18.C18_url
+#print axioms OtpVerif.Props.C18.C18_suites
+#print axioms OtpVerif.Props.C18.C18_suite_config
+#print axioms OtpVerif.Props.C18.C18_method
